@@ -44,6 +44,10 @@ def _grid(tier):
                     if tier == 'quick' and variant == 'hocur' and (len(mix) > 1 or d > 1):
                         continue
                     out.append({'variant': variant, 'd': d, 'm': m, 'mix': mix, 'pairs': pairs, 'perm': perm})
+    # optional outputs requested (eigenfunction evaluations): eigenvalues and eigentensors must not depend on it
+    for (d, m, mix) in ((1, 3, [['const', 'id']]), (2, 4, [['const', 'id'], ['id', 'cos']])):
+        for perm in (0, 1, 2):
+            out.append({'variant': 'hosvd', 'd': d, 'm': m, 'mix': mix, 'pairs': [[[0, 1], [1, 2]], [[0, 2], [1, 0]]], 'perm': perm, 'ef': True})
     return out
 
 
@@ -76,9 +80,9 @@ def _policy(ctx, perm_seed):
     return P()
 
 
-def _call_amuset(ctx, ted, tdt, TT, variant, x, xi, yi, phi, n, m, p, hoc):
+def _call_amuset(ctx, ted, tdt, TT, variant, x, xi, yi, phi, n, m, p, hoc, ef=False):
     if variant == 'hosvd':
-        return ted.amuset_hosvd(x, xi if len(xi) > 1 else xi[0], yi if len(yi) > 1 else yi[0], phi, threshold=0, max_rank=np.inf)
+        return ted.amuset_hosvd(x, xi if len(xi) > 1 else xi[0], yi if len(yi) > 1 else yi[0], phi, threshold=0, max_rank=np.inf, ef_tf=ef)[:2]
     real_hocur = tdt.hocur
 
     def fake_hocur(data, basis, ranks, repeats=1, multiplier=10, progress=True, string=None):
@@ -109,7 +113,7 @@ def _rotation_data(seed, d, m):
 
 
 @scenario('C18', 'amuset', _grid)
-def amuset(ctx, variant, d, m, mix, pairs, perm):
+def amuset(ctx, variant, d, m, mix, pairs, perm, ef=False):
     """reduced matrices, ordering by |lambda - 1|, eigentensors per index-set pair"""
     TT, ted, tdt = ctx.R.TT, ctx.R.tedmd, ctx.R.transform
     if ctx.mode == 'tv':
@@ -133,7 +137,7 @@ def amuset(ctx, variant, d, m, mix, pairs, perm):
         xi = [np.array(a) for a, b in use_pairs]
         yi = [np.array(b) for a, b in use_pairs]
         if variant == 'hosvd':
-            ev, et = ted.amuset_hosvd(np.asarray(x), xi if len(xi) > 1 else xi[0], yi if len(yi) > 1 else yi[0], phi, threshold=1e-10)
+            ev, et = ted.amuset_hosvd(np.asarray(x), xi if len(xi) > 1 else xi[0], yi if len(yi) > 1 else yi[0], phi, threshold=1e-10, ef_tf=ef)[:2]
         else:
             ev, et = ted.amuset_hocur(np.asarray(x), xi if len(xi) > 1 else xi[0], yi if len(yi) > 1 else yi[0], phi, max_rank=1000)
         evs = ev if isinstance(ev, list) else [ev]
@@ -182,7 +186,7 @@ def amuset(ctx, variant, d, m, mix, pairs, perm):
             return r_
         ted._reduced_matrix = spy
         try:
-            ev, et = _call_amuset(ctx, ted, tdt, TT, variant, x, xi, yi, phi, n, m, p, hoc)
+            ev, et = _call_amuset(ctx, ted, tdt, TT, variant, x, xi, yi, phi, n, m, p, hoc, ef)
         finally:
             ted._reduced_matrix = real_rm
         evs = ev if isinstance(ev, list) else [ev]
